@@ -86,3 +86,23 @@ Theorem C13_F7_refuted :
   link_kinds (fst (run_core f7_cfg core_init f7_items)) = [(32, Ks); (64, Kr); (120, KB); (121, Ks)].
 Proof. exact F7_burst_then_searching. Qed.
 Print Assumptions C13_F7_refuted.
+
+(** * iter_events() and iter_messages() mixed on one receiver *)
+From Sameold Require Import Proofs.FlushP Proofs.MixedP.
+
+(** ANY sequence of calls — next() on an event iterator ([PCall]) or on a message iterator ([MCall], given
+    enough internal steps) — threaded through the receiver and the shared source, answers exactly what the same
+    calls answer on the single pass's pending event stream alone *)
+Theorem C13_mixed_iterators_refine_the_single_pass : forall c cs s src,
+  fuel_ok (length (pending c s src)) cs ->
+  run_calls c s src cs = spec_calls (pending c s src) cs.
+Proof. exact mixed_calls_refine. Qed.
+Print Assumptions C13_mixed_iterators_refine_the_single_pass.
+
+(** and those answers are, in order, a subsequence of that stream: an event call shows the next event, a message
+    call the next Ok message, discarding exactly the non-message events before it — nothing twice, nothing
+    out of order, nothing invented *)
+Theorem C13_mixed_iterators_take_a_subsequence : forall cs R,
+  spec_calls R cs = answers_of R cs /\ subseq (taken R cs) R.
+Proof. intros cs R. split; [apply spec_calls_answers|apply taken_is_subsequence]. Qed.
+Print Assumptions C13_mixed_iterators_take_a_subsequence.
